@@ -133,7 +133,11 @@ func compileStmt(ctx *blockCtx, stmt ast.Stmt) {
 	case *ast.ExprStmt:
 		x := v.X
 		inFlags := checkCommandWithoutArgs(x)
+		base := ctx.cb.InternalStack().Len()
 		compileExpr(ctx, x, inFlags)
+		if e, ok := x.(*ast.ErrWrapExpr); ok && e.Tok == token.QUESTION && e.Default == nil {
+			discardErrWrapValues(ctx, base)
+		}
 	case *ast.AssignStmt:
 		compileAssignStmt(ctx, v)
 	case *ast.ReturnStmt:
@@ -180,6 +184,32 @@ func compileStmt(ctx *blockCtx, stmt ast.Stmt) {
 		log.Panicf("compileStmt failed: unknown - %T\n", v)
 	}
 	ctx.cb.EndStmt()
+}
+
+// discardErrWrapValues turns the values that `expr?` leaves behind when it is used as
+// a statement into `_, _ = v1, v2` (a lone value is not a valid Go statement).
+func discardErrWrapValues(ctx *blockCtx, base int) {
+	cb := ctx.cb
+	stk := cb.InternalStack()
+	nval := stk.Len() - base
+	if nval <= 0 { // nothing left behind (the call only returns an error)
+		return
+	}
+	vals := append([]*gogen.Element(nil), stk.GetArgs(nval)...)
+	nlhs := nval
+	if nval == 1 {
+		if t, ok := vals[0].Type.(*types.Tuple); ok {
+			nlhs = t.Len()
+		}
+	}
+	stk.PopN(nval)
+	for i := 0; i < nlhs; i++ {
+		cb.VarRef(nil)
+	}
+	for _, v := range vals {
+		stk.Push(v)
+	}
+	cb.Assign(nlhs, nval)
 }
 
 func checkCommandWithoutArgs(x ast.Expr) int {
